@@ -44,7 +44,7 @@ pub struct ConcCampaign {
 fn conc_case(focus: QRule) -> BoxedStrategy<ConcCase> {
     let mode = match focus {
         QRule::Isolation => Just(GateMode::Closed).boxed(),
-        QRule::Counters => prop_oneof![Just(GateMode::Open), Just(GateMode::Pulsed)].boxed(),
+        QRule::Counters | QRule::Panic => prop_oneof![Just(GateMode::Open), Just(GateMode::Pulsed)].boxed(),
         _ => prop_oneof![3 => Just(GateMode::Open), 2 => Just(GateMode::Pulsed)].boxed(),
     };
     let cap = match focus {
@@ -58,7 +58,7 @@ fn conc_case(focus: QRule) -> BoxedStrategy<ConcCase> {
             per_producer: if focus == QRule::Isolation { per_producer.min(40) } else { per_producer },
             mode,
             yields,
-            sampler: focus == QRule::Counters,
+            sampler: focus == QRule::Counters || focus == QRule::Panic,
         })
         .boxed()
 }
@@ -301,6 +301,9 @@ impl Campaign for ConcCampaign {
         }
         for b in sampler_bad.lock().unwrap().iter() {
             findings.push((QRule::Counters, b.clone()));
+            if b.contains("panicked") {
+                findings.push((QRule::Panic, b.clone()));
+            }
         }
         drop(q);
         for j in producer_ids {
